@@ -189,86 +189,191 @@ def buffer_root(rs, a):
     return None
 
 
-def wait_any_loop(fn, cfg, bid):
-    """(holder expr, idx decl) if block bid's terminating condition is H.wait_any(idx)"""
+def branch_wait_any(fn, cfg, bid):
+    """(wait_any call | None, flag decl | None, negated) for the condition that ends block bid"""
     b = cfg.blocks[bid]
     if b.get("cond") is None or len(b.get("succ", [])) != 2:
-        return None
+        return None, None, False
     c = fn.by_id(b["cond"])
+    neg = False
+    while c is not None and c.get("k") == "Un" and c.get("op") == "!":
+        c = c["e"]
+        neg = not neg
     if c is not None and c.get("k") == "MCall" and callee_name(c) == "wait_any" and strip_targs(c.get("ccls", "")) == "FEAT::Dist::RequestVector":
-        return c
-    return None
+        return c, None, neg
+    if c is not None and c.get("k") == "Ref" and c.get("dk") == "local":
+        return None, c.get("d"), neg
+    return None, None, False
 
 
-def request_typestate(ck, fn, rs, par, sites, key, initial=None, allow_pending_exit=False, rule="E14.requests-completed"):
-    """typestate idle/posted of every request holder touched in fn.  initial: dict holder path -> state at entry."""
-    cfg = fn.cfg
-    holders = {}
-    for c, h, how, slot, bufs in sites:
-        if h is not None:
-            holders.setdefault(h, []).append(c)
-    for h in (initial or {}):
-        holders.setdefault(h, [])
-    site_of = {c["i"]: h for c, h, how, slot, bufs in sites if h is not None}
-    results = {}
-    for H in holders:
-        problems = []
+class ReqClass:
+    """request typestate of the member functions of one class, with summaries of member helpers"""
 
-        def step(bid, st, H=H):
+    def __init__(self, fns):
+        self.fns = [f for f in fns if f.cfg is not None]
+        self.by_name = {}
+        for f in self.fns:
+            self.by_name.setdefault(f.name, []).append(f)
+        self.rs = {id(f): Resolver(f) for f in self.fns}
+        self.par = {id(f): dfl.parents(f) for f in self.fns}
+        self.sites = {id(f): post_sites(f, self.rs[id(f)], self.par[id(f)]) for f in self.fns}
+        self._summary = {}
+        self.called = set()
+        for f in self.fns:
+            for c in calls_of(f):
+                g = self.helper(c)
+                if g is not None:
+                    self.called.add(id(g))
+
+    def helper(self, c):
+        """member function of the same class called on this (overloads: by arity)"""
+        if c.get("k") != "MCall" or (c.get("obj") is not None and c["obj"].get("k") != "This"):
+            return None
+        cand = [g for g in self.by_name.get(callee_name(c), []) if len(g.params) == len(c.get("a", []))]
+        return cand[0] if len(cand) == 1 else None
+
+    def holders_of(self, f, seen=None):
+        seen = seen or set()
+        if id(f) in seen:
+            return set()
+        seen.add(id(f))
+        hs = {h for c, h, how, slot, bufs in self.sites[id(f)] if h is not None}
+        rs = self.rs[id(f)]
+        for c in calls_of(f):
+            nm = callee_name(c)
+            recv = dfl.receiver(c)
+            if recv is not None and nm in ("wait_all", "wait_any", "wait") and strip_targs(c.get("ccls", "")).startswith("FEAT::Dist::Request"):
+                hs.add(rs.path(recv))
+            g = self.helper(c)
+            if g is not None:
+                hs |= {h for h in self.holders_of(g, seen) if h.steps and h.steps[0] == ("this",)}
+        return hs
+
+    def summary(self, g, H, depth=0):
+        """(exit tags from idle, exit tags from posted) of member helper g for the member holder H"""
+        k = (id(g), H)
+        if k in self._summary:
+            return self._summary[k]
+        self._summary[k] = ({"idle"}, {"posted"})        # recursion guard: identity
+        if depth > 4:
+            return self._summary[k]
+        r0 = self.run(g, H, ("idle",), depth + 1)[1]
+        r1 = self.run(g, H, ("posted", -1, g.line, None), depth + 1)[1]
+        self._summary[k] = (r0, r1)
+        return self._summary[k]
+
+    def run(self, fn, H, init, depth=0):
+        """-> (problems, exit tags, doubts, exit states)"""
+        cfg = fn.cfg
+        rs = self.rs[id(fn)]
+        site_of = {c["i"]: h for c, h, how, slot, bufs in self.sites[id(fn)] if h is not None}
+        problems, doubts = [], []
+
+        def wait_any_of(n):
+            """the call H.wait_any(..) whose result statement n stores in a flag: returns the flag decl"""
+            if n.get("k") == "Decl":
+                for v in n.get("vars", []):
+                    i = v.get("init")
+                    if i is not None and i.get("k") == "MCall" and callee_name(i) == "wait_any" and rs.path(i.get("obj")) == H:
+                        return v["d"]
+            if n.get("k") == "Assign" and n.get("op") == "=" and n["lhs"].get("k") == "Ref":
+                i = n["rhs"]
+                if i.get("k") == "MCall" and callee_name(i) == "wait_any" and rs.path(i.get("obj")) == H:
+                    return n["lhs"].get("d")
+            return None
+
+        def step(bid, st):
             for e in cfg.blocks[bid]["el"]:
                 n = fn.by_id(e)
-                if n is None or not is_call(n):
+                if n is None:
+                    continue
+                d = wait_any_of(n)
+                if d is not None and st[0] == "posted":
+                    st = ("posted", st[1], st[2], d)
+                    continue
+                if not is_call(n):
                     continue
                 if n["i"] in site_of and site_of[n["i"]] == H:
                     if st[0] == "posted" and st[1] != n["i"]:
                         problems.append((n.get("l"), "requests of %s are re-posted while those posted at line %s may still be pending" % (H, st[2])))
-                    st = ("posted", n["i"], n.get("l"))
+                    st = ("posted", n["i"], n.get("l"), None)
+                    continue
+                g = self.helper(n)
+                if g is not None and H.steps and H.steps[0] == ("this",):
+                    ex0, ex1 = self.summary(g, H, depth)
+                    if st[0] == "idle" and "posted" in ex0:
+                        st = ("posted", n["i"], n.get("l"), None)
+                    elif st[0] == "posted" and ex1 == {"idle"}:
+                        st = ("idle",)
+                    elif st[0] == "posted" and "posted" in self.summary(g, H, depth)[0] and n["i"] != st[1]:
+                        problems.append((n.get("l"), "requests of %s are re-posted by %s while those posted at line %s may still be pending" % (H, callee_name(n), st[2])))
                     continue
                 nm = callee_name(n)
                 recv = dfl.receiver(n)
-                if recv is None or rs.path(recv) != H:
+                if recv is not None and rs.path(recv) == H:
+                    if nm in ("wait_all", "wait") and len(n.get("a", [])) == 0:
+                        st = ("idle",)
+                    elif nm in ("clear", "resize", "free", "cancel") and st[0] == "posted":
+                        problems.append((n.get("l"), "%s.%s() while requests posted at line %s may still be pending" % (H, nm, st[2])))
+                    elif nm not in ("wait_any", "push_back", "reserve", "get_request", "operator[]", "size", "get_status", "operator=") and st[0] == "posted":
+                        doubts.append((n.get("l"), "%s.%s(...) is not modelled and may complete the requests" % (H, nm)))
                     continue
-                if nm in ("wait_all", "wait") and len(n.get("a", [])) == 0:
-                    st = ("idle",)
-                elif nm in ("clear", "resize", "free", "cancel") and st[0] == "posted":
-                    problems.append((n.get("l"), "%s.%s() while requests posted at line %s may still be pending" % (H, nm, st[2])))
+                for a, pn_, pt_ in dfl.call_args_with_params(n, fn):
+                    if a is not recv and pt_ is not None and is_nonconst_ref(pt_) and rs.path(a) == H and st[0] == "posted" and n.get("callee") not in dfl.MOVE_FNS:
+                        doubts.append((n.get("l"), "%s is handed to %s, which is not modelled and may complete the requests" % (H, render(n)[:50])))
             return st
 
-        def edge(bid, k, st, H=H):
-            w = wait_any_loop(fn, cfg, bid)
-            if w is not None and rs.path(w.get("obj")) == H and k == 1:
+        def edge(bid, k, st):
+            if st[0] != "posted":
+                return st
+            w, flag, neg = branch_wait_any(fn, cfg, bid)
+            false_edge = 0 if neg else 1
+            if w is not None and rs.path(w.get("obj")) == H and k == false_edge:
                 return ("idle",)        # wait_any returned false: no active request left (dist.hpp)
+            if flag is not None and flag == st[3] and k == false_edge:
+                return ("idle",)        # the flag holds the result of the last wait_any
             return st
 
-        init = (initial or {}).get(H, ("idle",))
         inn, out = dfl.propagate(fn, init, step, edge)
-        exit_states = set()
+        tags = set()
+        states = set()
         for b in cfg.normal_exit_preds():
-            for st, facts in out.get(b, ()):
-                exit_states.add(st[0])
-                if st[0] == "posted" and not allow_pending_exit:
-                    problems.append((fn.end, "a path returns while the requests of %s posted at line %s have not been completed (wait_all / exhaustive wait_any loop)" % (H, st[2])))
-        # a wait_any completion loop must not be left early
-        for bid in cfg.blocks:
-            w = wait_any_loop(fn, cfg, bid)
-            if w is None or rs.path(w.get("obj")) != H:
-                continue
-            loop = None
-            for n in fn.nodes():
-                if n.get("k") in ("For", "While") and n.get("c") is not None and n["c"].get("i") == w.get("i"):
-                    loop = n
-            if loop is None:
-                continue
-            for x in walk(loop.get("body")):
-                if x.get("k") in ("Break", "Return"):
-                    problems.append((x.get("l"), "the wait_any completion loop of %s is left by %s before all requests are consumed" % (H, x["k"].lower())))
+            for st, facts in out.to_exit.get(b, ()):
+                tags.add(st[0])
+                states.add(st)
+        return (problems, tags, doubts, states)
+
+
+def request_typestate(ck, rc, fn, key, initial=None, allow_pending_exit=False, rule="E14.requests-completed"):
+    """typestate idle/posted of every request holder touched in fn (helpers of the class through summaries)"""
+    holders = set(rc.holders_of(fn)) | set(initial or {})
+    results = {}
+    nsites = {}
+    for c, h, how, slot, bufs in rc.sites[id(fn)]:
+        if h is not None:
+            nsites[h] = nsites.get(h, 0) + 1
+    for H in sorted(holders, key=repr):
+        init = (initial or {}).get(H, ("idle",))
+        problems, tags, doubts, states = rc.run(fn, H, init)
+        if "posted" in tags and not allow_pending_exit:
+            if id(fn) in rc.called and H.steps and H.steps[0] == ("this",):
+                pass          # a helper: the calling member function accounts for the pending requests (summary)
+            else:
+                ln = [st[2] for st in states if st[0] == "posted"]
+                problems.append((fn.end, "a path returns while the requests of %s posted at line %s have not been completed (wait_all / exhaustive wait_any loop)" % (H, ln[0] if ln else "?")))
         uniq = []
         for pr in problems:
             if pr[1] not in [u[1] for u in uniq]:
                 uniq.append(pr)
-        results[H] = (uniq, exit_states)
+        results[H] = (uniq, tags)
+        if doubts and [u for u in uniq if "have not been completed" in u[1]] == uniq:
+            ck.incomplete(rule, "%s/%s: %s" % (key, H, "; ".join(sorted({"line %s: %s" % d for d in doubts}))[:400]))
+            continue
+        if init[0] == "idle" and not nsites.get(H) and not uniq and tags <= {"idle"} and not any(rc.helper(c) is not None for c in calls_of(fn)):
+            continue          # the function only waits on a holder it never posts into (nothing to decide here)
         ck.ob(rule, "%s/%s" % (key, H), not uniq, "; ".join("line %s: %s" % pr for pr in uniq) or
-              ("%d post site(s); " % len(holders[H]) if holders[H] else "requests posted by the constructor; ") + "every path %s" % ("leaves the requests to the ticket's wait()" if allow_pending_exit and "posted" in exit_states else "completes them before returning"),
+              (("%d post site(s); " % nsites[H]) if nsites.get(H) else ("requests posted by the constructor; " if init[0] == "posted" else "requests posted through member helpers; ")) +
+              "every path %s" % ("leaves the requests to %s" % ("the ticket's wait()" if allow_pending_exit else "the calling member function") if "posted" in tags else "completes them before returning"),
               fn.file, uniq[0][0] if uniq else fn.line)
     return results
 
@@ -280,29 +385,34 @@ def check_requests(ck, facts):
             continue
         by_cls.setdefault(fn.cls, []).append(fn)
     for cls, fns in sorted(by_cls.items()):
-        posting = []
-        for fn in fns:
-            if fn.cfg is None:
-                continue
-            rs = Resolver(fn)
-            par = dfl.parents(fn)
-            sites = post_sites(fn, rs, par)
-            if sites:
-                posting.append((fn, rs, par, sites))
-        if not posting:
+        if not any(POST_RE.match(strip_targs(c.get("callee", ""))) for fn in fns if fn.cfg is not None for c in calls_of(fn)):
             continue
+        rc = ReqClass(fns)
+        posting = [(fn, rc.rs[id(fn)], rc.par[id(fn)], rc.sites[id(fn)]) for fn in rc.fns if rc.sites[id(fn)]]
+        # member functions that post directly or through a member helper
+        involved = [fn for fn in rc.fns if rc.sites[id(fn)] or any(rc.helper(c) is not None and rc.holders_of(rc.helper(c)) for c in calls_of(fn))]
         waits = [f for f in fns if f.name == "wait"]
         dtors = [f for f in fns if f.d.get("dtor")]
-        is_ticket = bool(waits) and any(fn.d.get("ctor") for fn, _, _, _ in posting)
+        is_ticket = bool(waits) and any(fn.d.get("ctor") for fn in involved)
         field_holders = {}
         inline_bufs = []
-        for fn, rs, par, sites in posting:
+        results = {}
+        for fn in involved:
+            if fn.name == "wait" and is_ticket:
+                continue
             key = fkey(fn)
-            for c, h, how, slot, bufs in sites:
+            for c, h, how, slot, bufs in rc.sites[id(fn)]:
                 if h is None:
                     ck.incomplete("E14.requests-completed", "%s: the request returned by %s is not stored in a recognisable holder" % (key, render(c)[:60]))
             in_ctor = bool(fn.d.get("ctor")) and is_ticket
-            res = request_typestate(ck, fn, rs, par, sites, key, allow_pending_exit=in_ctor)
+            results[id(fn)] = request_typestate(ck, rc, fn, key, allow_pending_exit=in_ctor)
+            if in_ctor:
+                for h, (pr, tags) in results[id(fn)].items():
+                    if "posted" in tags and h.steps and h.steps[0] == ("this",):
+                        field_holders[h] = ("posted", -1, fn.line, None)
+        for fn, rs, par, sites in posting:
+            key = fkey(fn)
+            res = results.get(id(fn), {})
             for c, h, how, slot, bufs in sites:
                 for a, pname in bufs:
                     br = buffer_root(rs, a)
@@ -316,11 +426,9 @@ def check_requests(ck, facts):
                     else:
                         ck.ob("E14.buffers-outlive-requests", "%s/%s:%s" % (key, callee_name(c), render(a)[:50]), True,
                               "buffer lives in %s; requests %s" % ({"field": "a member of the object", "local": "a local", "param": "caller storage"}[br[0]],
-                                                                   "are completed by wait()" if pend else "are completed before the function returns"), fn.file, c.get("l"))
+                                                                   "are completed later by the object (wait / calling member function)" if pend else "are completed before the function returns"), fn.file, c.get("l"))
                     if br[0] == "field" and br[2]:
                         inline_bufs.append((br[1], h))
-                if h is not None and h.steps and h.steps[0] == ("this",) and in_ctor:
-                    field_holders[h] = ("posted", -1, c.get("l"))
         if not is_ticket:
             continue
         # ---- ticket protocol: wait() completes what the constructor posted, and sets the finished flag ----------
@@ -329,9 +437,7 @@ def check_requests(ck, facts):
             ck.incomplete("E14.ticket-protocol", "%s: %d wait() / %d destructor definitions" % (clsk, len(waits), len(dtors)))
             continue
         w = waits[0]
-        rsw, parw = Resolver(w), dfl.parents(w)
-        # holders are compared by their steps: re-create with the resolver of wait()
-        res = request_typestate(ck, w, rsw, parw, post_sites(w, rsw, parw), fkey(w), initial=field_holders, rule="E14.ticket-protocol")
+        res = request_typestate(ck, rc, w, fkey(w), initial=field_holders, rule="E14.ticket-protocol")
         # finished flag: the bool field the destructor asserts
         d = dtors[0]
         flag = None
@@ -346,19 +452,25 @@ def check_requests(ck, facts):
                 cnd = n["c"]
                 if cnd.get("k") == "Un" and cnd.get("op") == "!" and cnd["e"].get("k") == "Member" and any(is_call(x) and callee_name(x) == "wait" for x in walk(n["then"])):
                     flag, how = cnd["e"]["n"], "waits"
-        ck.ob("E14.ticket-protocol", "%s::~dtor" % clsk, flag is not None,
-              ("the destructor %s on the completion flag '%s': an unfinished ticket cannot be destroyed silently" % (how, flag)) if flag else
-              "the destructor neither asserts the completion flag nor waits: buffers of pending requests are freed", d.file, d.line)
+        if flag is None and [c for c in calls_of(d) if not c.get("cconst") or c.get("callee") == "FEAT::assertion"]:
+            ck.incomplete("E14.ticket-protocol", "%s::~dtor: the destructor calls %s; whether that guards against pending requests is not modelled" % (clsk, render(calls_of(d)[0])[:60]))
+        else:
+            ck.ob("E14.ticket-protocol", "%s::~dtor" % clsk, flag is not None,
+                  ("the destructor %s on the completion flag '%s': an unfinished ticket cannot be destroyed silently" % (how, flag)) if flag else
+                  "the destructor is empty: it neither asserts the completion flag nor waits, buffers of pending requests are freed", d.file, d.line)
         if flag is not None:
             def sets_flag(n, flag=flag):
                 return n.get("k") == "Assign" and n.get("op") == "=" and n["lhs"].get("k") == "Member" and n["lhs"].get("n") == flag and n["rhs"].get("k") == "Bool" and n["rhs"].get("v")
             mp, bad = w.cfg.must_pass(sets_flag)
-            ck.ob("E14.ticket-protocol", "%s::wait/sets-%s" % (clsk, flag), mp, "every normal return of wait() sets %s = true" % flag if mp else
-                  "a path returns from wait() without setting %s" % flag, w.file, w.line)
+            if not mp and any(rc.helper(c) is not None for c in calls_of(w)):
+                ck.incomplete("E14.ticket-protocol", "%s::wait: %s is not set directly; a member helper called by wait() may set it (not modelled)" % (clsk, flag))
+            else:
+                ck.ob("E14.ticket-protocol", "%s::wait/sets-%s" % (clsk, flag), mp, "every normal return of wait() sets %s = true" % flag if mp else
+                      "a path returns from wait() without setting %s" % flag, w.file, w.line)
             # the flag is set only after completion: state at the assignment must be idle (checked through the exit states:
             # nothing re-posts after it) -> covered by the typestate above
         # ---- move operations: requests travel together with their buffers, the source is marked finished ----------
-        ctor_sites = [(c, h, bufs, rs_) for fn_, rs_, par_, sites_ in posting if fn_.d.get("ctor") for c, h, how, slot, bufs in sites_]
+        ctor_sites = [(c, h, bufs, rs_) for fn_, rs_, par_, sites_ in posting if fn_.d.get("ctor") or id(fn_) in rc.called for c, h, how, slot, bufs in sites_]
         req_fields = sorted({h.steps[1][1] for c, h, bufs, rs_ in ctor_sites if h is not None and len(h.steps) > 1 and h.steps[0] == ("this",)})
         buf_fields = sorted({br[1] for c, h, bufs, rs_ in ctor_sites for a, pn in bufs for br in [buffer_root(rs_, a)] if br is not None and br[0] == "field" and not br[2]})
         for f in fns:
@@ -381,6 +493,12 @@ def check_requests(ck, facts):
                             taken[lhs["n"]] = src[0]["n"]
                     elif lhs.get("k") == "Member" and lhs.get("b") is not None and lhs["b"].get("k") == "Ref" and lhs["b"].get("d") == od:
                         src_set[lhs["n"]] = rhs
+            unmod = [c for c in calls_of(f) if c.get("callee") not in dfl.MOVE_FNS and any(
+                x.get("k") == "Ref" and x.get("d") == od for a_ in c.get("a", []) for x in ([a_] if a_.get("k") == "Ref" else [])) and
+                c.get("k") not in ("Construct", "TempObj")]
+            if unmod:
+                ck.incomplete("E14.buffers-outlive-requests", "%s: the source object is handed as a whole to %s, which is not modelled" % (fkey(f), render(unmod[0])[:60]))
+                continue
             if buf_fields:
                 need = req_fields + buf_fields
                 wrong = [x for x in need if taken.get(x) != x]
@@ -440,6 +558,25 @@ def index_exprs(body):
     return out
 
 
+def index_exprs_nodes(nodes):
+    out = []
+    for n in nodes:
+        if n.get("k") == "MCall" and callee_name(n) in ("at", "get_request", "get_status") and len(n.get("a", [])) == 1:
+            out.append((n.get("obj"), n["a"][0], n))
+        elif n.get("k") == "OpCall" and n.get("op") == "[]" and len(n.get("a", [])) == 2:
+            out.append((n["a"][0], n["a"][1], n))
+        elif n.get("k") == "Index":
+            out.append((n["b"], n["idx"], n))
+    return out
+
+
+def strip_casts(rs, x):
+    x = rs.value(x)
+    while x is not None and (x.get("k") == "Cast" or (x.get("k") in ("Construct", "TempObj") and len(x.get("a", [])) == 1)):
+        x = rs.value(x.get("e") if x.get("k") == "Cast" else x["a"][0])
+    return x
+
+
 def check_coherence(ck, facts):
     irecv_fields = {}
     for fn in facts.functions:
@@ -459,27 +596,70 @@ def check_coherence(ck, facts):
         rs = Resolver(fn)
         par = dfl.parents(fn)
         cfg = fn.cfg
-        loops = [n for n in fn.nodes() if n.get("k") in ("For", "While")]
+        loops = [n for n in fn.nodes() if n.get("k") in ("For", "While", "Do", "ForRange")]
         ordinal = {}
         has_gather = any(c.get("k") == "MCall" and callee_name(c) == "gather" for c in calls_of(fn))
-        for L in loops:
-            body = L.get("body")
-            posts = [c for c in walk(body) if is_call(c) and POST_RE.match(strip_targs(c.get("callee", "")))]
-            mirror_ops = [c for c in walk(body) if c.get("k") == "MCall" and callee_name(c) in ("gather", "scatter_axpy", "buffer_size", "create_buffer")]
-            cond = L.get("c")
-            is_wait_any = cond is not None and cond.get("k") == "MCall" and callee_name(cond) == "wait_any"
+        # flags that hold the result of wait_any:  bool f = H.wait_any(idx); ... f = H.wait_any(idx);
+        flag_calls = {}
+        for n in fn.nodes():
+            if n.get("k") == "Var" and (n.get("init") or {}).get("k") == "MCall" and callee_name(n["init"]) == "wait_any":
+                flag_calls.setdefault(n["d"], []).append(n["init"])
+            elif n.get("k") == "Assign" and n.get("op") == "=" and n["lhs"].get("k") == "Ref" and n["rhs"].get("k") == "MCall" and callee_name(n["rhs"]) == "wait_any":
+                flag_calls.setdefault(n["lhs"]["d"], []).append(n["rhs"])
+        scopes = [(L, [x for x in walk(L.get("body"))]) for L in loops]
+        outside = [x for x in fn.nodes() if not dfl.enclosing_loops(fn, par, x) and x.get("k") not in ("For", "While", "Do", "ForRange")]
+        scopes.append((None, outside))
+        for L, nodes in scopes:
+            posts = [c for c in nodes if is_call(c) and POST_RE.match(strip_targs(c.get("callee", "")))]
+            mirror_ops = [c for c in nodes if c.get("k") == "MCall" and callee_name(c) in ("gather", "scatter_axpy", "buffer_size", "create_buffer")
+                          and strip_targs(c.get("ccls", "")).startswith("FEAT::LAFEM::")]
+            cond = L.get("c") if L is not None else None
+            wa_calls = []
+            if cond is not None and cond.get("k") == "MCall" and callee_name(cond) == "wait_any":
+                wa_calls = [cond]
+            elif cond is not None and cond.get("k") == "Ref" and cond.get("d") in flag_calls:
+                wa_calls = flag_calls[cond["d"]]
+            elif L is not None and (cond is None or (cond.get("k") == "Bool" and cond.get("v"))) and L.get("k") in ("For", "While"):
+                # for(;;) { if(!H.wait_any(idx)) break; ... }
+                body = L.get("body") or {}
+                stmts_ = [x for x in (body.get("s") or [body]) if x.get("k") != "Decl"] if body else []
+                first = stmts_[0] if stmts_ else None
+                if first is not None and first.get("k") == "If" and first.get("else") is None:
+                    c0 = first["c"]
+                    if c0.get("k") == "Un" and c0.get("op") == "!" and c0["e"].get("k") == "MCall" and callee_name(c0["e"]) == "wait_any" \
+                            and [x.get("k") for x in walk(first["then"]) if x.get("k") not in ("Block",)] == ["Break"]:
+                        wa_calls = [c0["e"]]
+            is_wait_any = bool(wa_calls)
+            if L is None:
+                posts = [c for c in posts if callee_name(c) in ("irecv", "isend")]      # collectives have no neighbour
+                if not posts and not [c for c in mirror_ops if callee_name(c) in ("gather", "scatter_axpy") and index_exprs_nodes(list(walk(c)))]:
+                    continue
             if not posts and not mirror_ops and not is_wait_any:
                 continue
             # index variable of the iteration
             ivar = None
             if is_wait_any:
-                a = dfl.arg_by_param(cond, "idx")
-                if a is not None and a.get("k") == "Ref":
-                    ivar = a.get("d")
+                ds = set()
+                for w in wa_calls:
+                    a = dfl.arg_by_param(w, "idx") or (w["a"][0] if w.get("a") else None)
+                    ds.add(a.get("d") if a is not None and a.get("k") == "Ref" else None)
+                ivar = ds.pop() if len(ds) == 1 else None
+            elif L is None:
+                # a helper that handles one neighbour: the neighbour index is a parameter
+                cands = set()
+                for cont, ix, node in index_exprs_nodes(nodes):
+                    v = strip_casts(rs, ix)
+                    if v.get("k") == "Ref" and v.get("dk") == "param":
+                        cands.add(v["d"])
+                ivar = cands.pop() if len(cands) == 1 else None
+            elif L.get("k") == "ForRange":
+                ivar = None
             else:
                 ini = L.get("init")
                 if ini is not None and ini.get("k") == "Decl" and len(ini.get("vars", [])) == 1:
                     ivar = ini["vars"][0]["d"]
+                elif L.get("k") in ("While", "Do") and cond is not None and cond.get("k") == "Bin" and strip_casts(rs, cond["lhs"]).get("k") == "Ref":
+                    ivar = strip_casts(rs, cond["lhs"]).get("d")
             # one instance per neighbour action (post / mirror gather / completion), so that merging or splitting loops keeps the count
             actions = ["complete"] if is_wait_any else (sorted(callee_name(c) for c in posts) + ["gather"] * sum(1 for c in mirror_ops if callee_name(c) == "gather")) or ["mirrors"]
             keys = []
@@ -487,20 +667,28 @@ def check_coherence(ck, facts):
                 ordinal[act] = ordinal.get(act, 0) + 1
                 keys.append("%s/loop:%s#%d" % (fkey(fn), act, ordinal[act]))
             key = keys[0]
+            where_l = L.get("l") if L is not None else fn.line
             if ivar is None:
-                ck.incomplete("E14.neighbour-coherence", key + ": iteration variable of the neighbour loop not recognised")
+                ck.incomplete("E14.neighbour-coherence", key + ": neighbour index of the iteration / helper not recognised")
                 continue
             problems = []
+            doubts = []
             nidx = 0
-            for cont, ix, node in index_exprs(body):
-                v = rs.value(ix)
+            forms = {}
+            for cont, ix, node in index_exprs_nodes(nodes):
+                v = strip_casts(rs, ix)
                 if v.get("k") == "Int":
                     continue
-                if v.get("k") in ("Cast", "Construct", "TempObj") and len(v.get("a", []) or [v.get("e")]) == 1:
-                    v = rs.value((v.get("a") or [v.get("e")])[0])
                 nidx += 1
-                if not (v.get("k") == "Ref" and v.get("d") == ivar):
-                    problems.append((node.get("l"), "%s is subscripted with %s, every per-neighbour object in this iteration must use the iteration's neighbour index" % (render(cont)[:40], render(ix))))
+                forms.setdefault(render(v), []).append((cont, ix, node, v))
+            if len(forms) > 1 or (forms and not all(any(x.get("k") == "Ref" and x.get("d") == ivar for x in walk(v)) for f_ in forms.values() for (_, _, _, v) in f_)):
+                for form, lst in forms.items():
+                    cont, ix, node, v = lst[0]
+                    if v.get("k") == "Ref" and v.get("d") == ivar:
+                        continue
+                    simple = all(x.get("k") in ("Ref", "Int", "Bin", "Cast", "Un") for x in walk(v))
+                    msg = "%s is subscripted with %s, every per-neighbour object in this iteration must use the same neighbour index" % (render(cont)[:40], render(ix))
+                    (problems if simple else doubts).append((node.get("l"), msg))
             for c in posts:
                 buf = cnt = None
                 for a, pn, pt in dfl.call_args_with_params(c, fn):
@@ -508,14 +696,15 @@ def check_coherence(ck, facts):
                         buf = a
                     elif pn == "count":
                         cnt = a
-                if buf is not None and cnt is not None and buf.get("k") == "MCall":
-                    bobj = rs.path(buf.get("obj"))
-                    cobjs = [rs.path(x.get("obj")) for x in walk(cnt) if x.get("k") == "MCall" and x.get("obj") is not None and not rs.path(x.get("obj")).opaque()
+                bufv = rs.value(buf) if buf is not None else None
+                if bufv is not None and cnt is not None and bufv.get("k") == "MCall":
+                    bobj = rs.path(bufv.get("obj"))
+                    cobjs = [rs.path(x.get("obj")) for x in walk(rs.value(cnt)) if x.get("k") == "MCall" and x.get("obj") is not None and not rs.path(x.get("obj")).opaque()
                              and callee_name(x) not in ("at",)]
                     if cobjs and any(co != bobj for co in cobjs):
                         problems.append((c.get("l"), "message length %s is taken from another object than the buffer %s" % (render(cnt)[:60], render(buf)[:60])))
-                if callee_name(c) == "isend" and has_gather and buf is not None and buf.get("k") == "MCall":
-                    bobj = rs.path(buf.get("obj"))
+                if callee_name(c) == "isend" and has_gather and bufv is not None and bufv.get("k") == "MCall":
+                    bobj = rs.path(bufv.get("obj"))
                     ok = False
                     for g in mirror_ops:
                         if callee_name(g) == "gather":
@@ -523,10 +712,14 @@ def check_coherence(ck, facts):
                             if ga is not None and rs.path(ga) == bobj and cfg.stmt_dominates(g["i"], c["i"]):
                                 ok = True
                     if not ok:
-                        problems.append((c.get("l"), "the send buffer %s is not filled by a mirror gather into the same buffer on every path before isend" % render(buf.get("obj"))[:60]))
+                        # the buffer may be filled by a construct that is not a direct mirror gather in this scope
+                        filled = [x for x in nodes if is_call(x) and x is not c and x.get("callee") not in dfl.MOVE_FNS and callee_name(x) != "gather" and any(
+                            pt_ is not None and is_nonconst_ref(pt_) and rs.path(a_).related(bobj) for a_, pn_, pt_ in dfl.call_args_with_params(x, fn) if a_ is not dfl.receiver(x))]
+                        msg = "the send buffer %s is not filled by a mirror gather into the same buffer on every path before isend" % render(bufv.get("obj"))[:60]
+                        (doubts if filled else problems).append((c.get("l"), msg + (" (it is handed to %s, which is not modelled)" % render(filled[0])[:50] if filled else "")))
                 # push_back keeps slot == neighbour index only if executed exactly once per iteration
                 pr = par.get(id(c))
-                if pr and pr[0].get("k") == "MCall" and callee_name(pr[0]) == "push_back":
+                if L is not None and pr and pr[0].get("k") == "MCall" and callee_name(pr[0]) == "push_back":
                     cur = pr[0]
                     while id(cur) in par and par[id(cur)][0] is not L:
                         cur = par[id(cur)][0]
@@ -535,9 +728,10 @@ def check_coherence(ck, facts):
                             break
             if is_wait_any:
                 # completion handler: exactly scatter_axpy(mirror[idx], buffer[idx]) into the target
+                flagd = cond.get("d") if cond is not None and cond.get("k") == "Ref" else None
                 effects = []
-                for c in walk(body):
-                    if not is_call(c) or c.get("callee") in dfl.MOVE_FNS:
+                for c in nodes:
+                    if not is_call(c) or c.get("callee") in dfl.MOVE_FNS or c in wa_calls or callee_name(c) == "wait_any":
                         continue
                     writes_arg = any(pt is not None and is_nonconst_ref(pt) for a, pn, pt in dfl.call_args_with_params(c, fn) if a is not dfl.receiver(c))
                     pr = par.get(id(c))
@@ -546,30 +740,36 @@ def check_coherence(ck, facts):
                         effects.append(c)
                 hs = [c for c in effects if callee_name(c) == "scatter_axpy"]
                 others = [c for c in effects if callee_name(c) != "scatter_axpy"]
-                if len(hs) != 1:
-                    problems.append((L.get("l"), "%d scatter_axpy handlers in the completion loop (expected exactly one)" % len(hs)))
-                for c in others:
-                    problems.append((c.get("l"), "completion loop also executes %s: handlers of different neighbours may no longer commute" % render(c)[:60]))
+                if others or len(hs) != 1:
+                    # other work in the completion loop (timing, statistics, helper functions ...): whether it commutes is not modelled
+                    doubts.append((where_l, "completion loop executes %s besides / instead of a single mirror scatter_axpy" % (", ".join(render(c)[:40] for c in others) or "%d handlers" % len(hs))))
                 for h in hs:
                     b = dfl.arg_by_param(h, "buffer")
                     br = buffer_root(rs, b) if b is not None else None
-                    if br is None or br[0] != "field" or br[1] not in irecv_fields.get(fn.cls, set()):
+                    if br is None:
+                        doubts.append((h.get("l"), "handler buffer %s not understood" % render(b)))
+                    elif br[0] != "field" or br[1] not in irecv_fields.get(fn.cls, set()):
                         problems.append((h.get("l"), "handler scatters %s, which is not a buffer that irecv was posted on (%s)" % (render(b), sorted(irecv_fields.get(fn.cls, [])))))
                     al = dfl.arg_by_param(h, "alpha")
                     if al is not None:
-                        v = rs.value(al)
-                        while v.get("k") in ("Construct", "TempObj", "Cast") and len(v.get("a", []) or [v.get("e")]) == 1:
-                            v = rs.value((v.get("a") or [v.get("e")])[0])
-                        if not (v.get("k") in ("Int", "Float") and float(v.get("text") or v.get("v")) == 1.0):
-                            problems.append((h.get("l"), "received contribution scaled by alpha=%s" % render(al)))
+                        v = strip_casts(rs, al)
+                        if v.get("k") in ("Int", "Float"):
+                            if float(v.get("text") or v.get("v")) != 1.0:
+                                problems.append((h.get("l"), "received contribution scaled by alpha=%s" % render(al)))
+                        else:
+                            doubts.append((h.get("l"), "scaling %s of the received contribution not understood" % render(al)))
                     mo = h.get("obj")
                     mst = rs.path(mo).steps if mo is not None else ()
                     if not (mst and mst[-1][0] == "call" and mst[-1][1] == "at"):
-                        problems.append((h.get("l"), "handler mirror %s is not the per-neighbour mirror" % render(mo)))
+                        doubts.append((h.get("l"), "handler mirror %s is not recognised as an element of the per-neighbour mirror array" % render(mo)))
+            rule = "E14.neighbour-coherence" if not is_wait_any else "E5.handler-commutes"
+            if doubts and not problems:
+                ck.incomplete(rule, "%s: %s" % (key, "; ".join(sorted({"line %s: %s" % d for d in doubts}))[:400]))
+                continue
             for key in keys:
-                ck.ob("E14.neighbour-coherence" if not is_wait_any else "E5.handler-commutes", key, not problems,
-                      "; ".join("line %s: %s" % p for p in problems) or ("%d subscripts in the loop, all with the iteration's neighbour index%s" % (
-                          nidx, "; handler = mirror[idx].scatter_axpy(target, recv_buffer[idx], 1)" if is_wait_any else "")), fn.file, problems[0][0] if problems else L.get("l"))
+                ck.ob(rule, key, not problems,
+                      "; ".join("line %s: %s" % p for p in problems) or ("%d subscripts in the %s, all with the same neighbour index%s" % (
+                          nidx, "loop" if L is not None else "helper", "; handler = mirror[idx].scatter_axpy(target, recv_buffer[idx], 1)" if is_wait_any else "")), fn.file, problems[0][0] if problems else where_l)
 
 
 # =====================================================================================================
@@ -587,7 +787,9 @@ def canon(fn, n):
                 order[v["d"]] = "#" + render(c["rhs"])        # a loop variable is named after the extent it ranges over
     for x in fn.nodes():
         if x.get("k") == "Var" and x.get("d") not in order:
-            order[x["d"]] = "L%d" % len(order)
+            init = x.get("init")
+            # a const scalar local is replaced by its definition; any other local (e.g. a while-loop counter) is not understood
+            order[x["d"]] = ("=" + render(init)) if (x.get("const") and init is not None) else "?%s" % x.get("n")
 
     def r(x):
         k = x.get("k")
@@ -629,49 +831,95 @@ def check_kernels(ck, facts):
         m = re.match(r"FEAT::LAFEM::Arch::Mirror::(gather|scatter)_(dv|dvb|sv|svb)_generic$", strip_targs(fn.qn))
         if m and fn.tk != "pattern":
             gens.setdefault((m.group(1), m.group(2)), fn)
+    def roles(fn):
+        """parameter roles of a mirror kernel by type: out (written value array), val (read value arrays), scal (value-typed scalars)"""
+        ptr = [(p, fn.type(p["t"]).strip()) for p in fn.params]
+        outs = [p["n"] for p, t in ptr if t.endswith("*") and not t.startswith("const ")]
+        vt = None
+        if len(outs) == 1:
+            vt = [t for p, t in ptr if p["n"] == outs[0]][0].rstrip("*").strip()
+        vals = [p["n"] for p, t in ptr if vt and t.endswith("*") and t.startswith("const ") and t[len("const "):].rstrip("*").strip() == vt]
+        scal = [p["n"] for p, t in ptr if vt and not t.endswith("*") and t.replace("const ", "").strip() == vt]
+        return outs, vals, scal
+
     for kind in ("dv", "dvb", "sv", "svb"):
         g, sc = gens.get(("gather", kind)), gens.get(("scatter", kind))
         if g is None or sc is None:
             ck.incomplete("E5.scatter-kernel-additive", "mirror kernel pair %s not instantiated" % kind)
             continue
-        out_arr = "vec" if kind in ("dv", "dvb") else "vval"
+        outs, vals, scal = roles(sc)
+        if len(outs) != 1 or len(vals) != 1:
+            ck.incomplete("E5.scatter-kernel-additive", "scatter_%s_generic: parameter roles not recognised from the types (written arrays %s, read value arrays %s)" % (kind, outs, vals))
+            continue
+        out_arr, buf_arr = outs[0], vals[0]
         acc = kernel_accesses(sc)
-        problems = []
+        problems, unknown = [], []
         stores = [a for a in acc if a[2] == "store"]
+        covered = set()
         if not stores:
-            problems.append((sc.line, "no store found"))
+            unknown.append((sc.line, "no element store found (the kernel writes through a construct that is not modelled)"))
         for arr, ix, _, op, node in stores:
             if arr != out_arr:
                 problems.append((node.get("l"), "scatter kernel writes array '%s' (only the vector values '%s' may be written)" % (arr, out_arr)))
-            elif op != "+=":
-                problems.append((node.get("l"), "store %s uses '%s': a plain assignment makes the result depend on the order in which neighbour buffers arrive" % (render(node)[:60], op)))
-            rhs_reads = [x for x in walk(node["rhs"]) if x.get("k") == "Ref" and x.get("n") == out_arr]
-            if rhs_reads:
-                problems.append((node.get("l"), "right-hand side reads the output array %s" % out_arr))
-            if not any(x.get("k") == "Ref" and x.get("n") == "buf" for x in walk(node["rhs"])) or not any(x.get("k") == "Ref" and x.get("n") == "alpha" for x in walk(node["rhs"])):
-                problems.append((node.get("l"), "contribution is not alpha*buf[...]"))
+                continue
+            contrib = None
+            if op == "+=":
+                contrib = node["rhs"]
+            elif op == "=":
+                r_ = node["rhs"]
+                while r_.get("k") == "Cast":
+                    r_ = r_["e"]
+                if r_.get("k") == "Bin" and r_.get("op") == "+":
+                    for x_, y_ in ((r_["lhs"], r_["rhs"]), (r_["rhs"], r_["lhs"])):
+                        if x_.get("k") == "Index" and x_["b"].get("k") == "Ref" and x_["b"].get("n") == out_arr and canon(sc, x_["idx"]) == ix:
+                            contrib = y_                      # v = v + c  ==  v += c
+                            covered.add(id(x_))
+                            break
+                if contrib is None:
+                    problems.append((node.get("l"), "store %s is a plain assignment: the value depends on the order in which neighbour buffers arrive" % render(node)[:70]))
+                    continue
+            else:
+                problems.append((node.get("l"), "store %s uses '%s' instead of an addition" % (render(node)[:60], op)))
+                continue
+            if any(x.get("k") == "Ref" and x.get("n") == out_arr for x in walk(contrib)):
+                unknown.append((node.get("l"), "the added contribution %s reads the output array" % render(contrib)[:60]))
+            names_ = {x.get("n") for x in walk(contrib) if x.get("k") == "Ref"}
+            if buf_arr not in names_ or not (set(scal) & names_):
+                unknown.append((node.get("l"), "contribution %s is not recognised as alpha*%s[...]" % (render(contrib)[:60], buf_arr)))
         for arr, ix, what, op, node in acc:
-            if what == "load" and arr == out_arr:
-                pr = None
-                problems.append((node.get("l"), "scatter kernel reads %s[%s] outside a compound addition" % (arr, ix)))
-        ck.ob("E5.scatter-kernel-additive", "Arch::Mirror::scatter_%s_generic" % kind, not problems,
-              "; ".join("line %s: %s" % p for p in problems) or "all %d stores are %s[...] += alpha*buf[...]; %s is not read otherwise" % (len(stores), out_arr, out_arr),
-              sc.file, problems[0][0] if problems else sc.line)
+            if what == "load" and arr == out_arr and id(node) not in covered:
+                unknown.append((node.get("l"), "scatter kernel reads %s[%s] outside an addition into the same cell" % (arr, ix)))
+        if "?" in "".join(a_[1] for a_ in acc):
+            unknown.append((sc.line, "loop structure of the kernel not recognised"))
+        if unknown and not problems:
+            ck.incomplete("E5.scatter-kernel-additive", "scatter_%s_generic: %s" % (kind, "; ".join("line %s: %s" % u for u in unknown)[:400]))
+        else:
+            ck.ob("E5.scatter-kernel-additive", "Arch::Mirror::scatter_%s_generic" % kind, not problems,
+                  "; ".join("line %s: %s" % p for p in problems) or "all %d stores add alpha*%s[...] into %s[...]; %s is not read otherwise" % (len(stores), buf_arr, out_arr, out_arr),
+                  sc.file, problems[0][0] if problems else sc.line)
         # gather: only buf is written, by plain assignment
         gacc = kernel_accesses(g)
+        gouts, gvals, gscal = roles(g)
         gp = []
+        if gouts != [buf_arr] and gouts:
+            pass
         for arr, ix, what, op, node in gacc:
-            if what == "store" and arr != "buf":
+            if what == "store" and gouts and arr != gouts[0]:
                 gp.append((node.get("l"), "gather kernel writes array '%s'" % arr))
         # pair agreement: same buffer cells, same vector cells
         def cells(acc, arr):
             return sorted({ix for a, ix, what, op, node in acc if a == arr})
-        for arr in ("buf", out_arr, "idx"):
+        allforms = "".join(a_[1] for a_ in acc + gacc)
+        if "?" in allforms or len(gouts) != 1 or not gvals or gouts[0] != buf_arr or out_arr not in gvals:
+            ck.incomplete("E2.gather-scatter-agree", "{gather,scatter}_%s_generic: loop structure / parameter roles of the kernels not recognised" % kind)
+            continue
+        idx_arrays = sorted({a_[0] for a_ in acc + gacc} - {buf_arr, out_arr})
+        for arr in [buf_arr, out_arr] + idx_arrays:
             if cells(gacc, arr) != cells(acc, arr):
                 gp.append((g.line, "gather addresses %s[%s] but scatter addresses %s[%s]: what one side packs is not what the other side unpacks" % (
                     arr, ", ".join(cells(gacc, arr)), arr, ", ".join(cells(acc, arr)))))
         ck.ob("E2.gather-scatter-agree", "Arch::Mirror::{gather,scatter}_%s_generic" % kind, not gp,
-              "; ".join("line %s: %s" % p for p in gp) or "buffer cells %s and vector cells %s agree between gather and scatter" % (cells(acc, "buf"), cells(acc, out_arr)),
+              "; ".join("line %s: %s" % p for p in gp) or "buffer cells %s and vector cells %s agree between gather and scatter" % (cells(acc, buf_arr), cells(acc, out_arr)),
               g.file, gp[0][0] if gp else g.line)
     # dispatchers forward to the generic kernel of the same name with identical argument order
     seen = set()
@@ -726,43 +974,63 @@ def check_kernels(ck, facts):
         if callee_name(c) != want:
             problems.append("calls kernel %s, expected %s for %s" % (callee_name(c), want, vt[:50]))
 
-        def is_acc(a, par_d, names):
-            return a is not None and a.get("k") == "MCall" and callee_name(a) in names and (a.get("obj") or {}).get("k") == "Ref" and a["obj"].get("d") == par_d
+        rsm = Resolver(fn)
+        unknown = []
 
-        def is_this(a, name):
-            return a is not None and a.get("k") == "MCall" and callee_name(a) == name and (a.get("obj") is None or a["obj"].get("k") == "This")
+        def acc_of(a):
+            """('param', decl, accessor) | ('this', accessor) | ('ref', decl) | None for a kernel argument"""
+            a = strip_casts(rsm, a) if a is not None else None
+            if a is None:
+                return None
+            if a.get("k") == "MCall" and not a.get("a"):
+                o = a.get("obj")
+                if o is None or o.get("k") == "This":
+                    return ("this", callee_name(a))
+                po = rsm.path(o).steps
+                if len(po) == 1 and po[0][0] == "param":
+                    return ("param", po[0][1], callee_name(a))
+            if a.get("k") == "Ref" and a.get("dk") == "param":
+                return ("ref", a.get("d"))
+            return None
+
+        def expect(slot, want, text):
+            got = acc_of(roles.get(slot))
+            if got == want:
+                return
+            if got is None:
+                unknown.append("slot %s <- %s not understood (expected %s)" % (slot, render(roles.get(slot)), text))
+            else:
+                problems.append("slot %s <- %s, expected %s" % (slot, render(roles.get(slot)), text))
         roles = {pn: a for a, pn, pt in dfl.call_args_with_params(c, fn)}
-        if not is_acc(roles.get("buf"), bufp["d"], ("elements",)):
-            problems.append("slot buf <- %s, expected %s.elements() (the %s DenseVector parameter)" % (render(roles.get("buf")), bufp["n"], "written" if is_gather else "read-only"))
+        expect("buf", ("param", bufp["d"], "elements"), "%s.elements() (the %s DenseVector parameter)" % (bufp["n"], "written" if is_gather else "read-only"))
         vslot = "vec" if suffix in ("dv", "dvb") else "vval"
-        if not is_acc(roles.get(vslot), vecpar["d"], ("elements",)):
-            problems.append("slot %s <- %s, expected %s.elements()" % (vslot, render(roles.get(vslot)), vecpar["n"]))
+        expect(vslot, ("param", vecpar["d"], "elements"), "%s.elements()" % vecpar["n"])
         if suffix in ("sv", "svb"):
-            if not is_acc(roles.get("vidx"), vecpar["d"], ("indices",)):
-                problems.append("slot vidx <- %s, expected %s.indices()" % (render(roles.get("vidx")), vecpar["n"]))
-            if not is_acc(roles.get("nvec"), vecpar["d"], ("used_elements",)):
-                problems.append("slot nvec <- %s, expected %s.used_elements()" % (render(roles.get("nvec")), vecpar["n"]))
-        if not is_this(roles.get("idx"), "indices"):
-            problems.append("slot idx <- %s, expected this->indices()" % render(roles.get("idx")))
-        if not is_this(roles.get("nidx"), "num_indices"):
-            problems.append("slot nidx <- %s, expected this->num_indices()" % render(roles.get("nidx")))
-        offp = [p for p in fn.params if p not in vecp and "Index" in fn.type(p["t"]) or fn.type(p["t"]).replace("const ", "") in ("unsigned long", "unsigned int")]
-        offp = [p for p in offp if p not in vecp]
-        b = roles.get("boff")
-        if not (b is not None and b.get("k") == "Ref" and len(offp) == 1 and b.get("d") == offp[0]["d"]):
-            problems.append("slot boff <- %s, expected the buffer offset parameter" % render(b))
+            expect("vidx", ("param", vecpar["d"], "indices"), "%s.indices()" % vecpar["n"])
+            expect("nvec", ("param", vecpar["d"], "used_elements"), "%s.used_elements()" % vecpar["n"])
+        expect("idx", ("this", "indices"), "this->indices()")
+        expect("nidx", ("this", "num_indices"), "this->num_indices()")
+        offp = [p for p in fn.params if p not in vecp and ("Index" in fn.type(p["t"]) or fn.type(p["t"]).replace("const ", "").strip() in ("unsigned long", "unsigned int"))]
+        if len(offp) == 1:
+            expect("boff", ("ref", offp[0]["d"]), "the buffer offset parameter")
+        else:
+            unknown.append("buffer offset parameter not recognised")
         if not is_gather:
-            al = roles.get("alpha")
             alp = [p for p in fn.params if p not in vecp and p not in offp]
-            if not (al is not None and al.get("k") == "Ref" and len(alp) == 1 and al.get("d") == alp[0]["d"]):
-                problems.append("slot alpha <- %s, expected the scaling parameter" % render(al))
+            if len(alp) == 1:
+                expect("alpha", ("ref", alp[0]["d"]), "the scaling parameter")
+            else:
+                unknown.append("scaling parameter not recognised")
         if suffix in ("dvb", "svb"):
             bsz = re.search(r", (\d+)>\s*&?$", vt.strip())
-            bs = roles.get("bs")
-            lit = [x for x in walk(bs)] if bs is not None else []
-            val = next((x.get("v") for x in lit if x.get("k") == "Int"), None)
-            if bsz is None or val is None or str(val) != bsz.group(1):
-                problems.append("slot bs <- %s, expected the block size of %s" % (render(bs), vt[:60]))
+            bs = strip_casts(rsm, roles.get("bs")) if roles.get("bs") is not None else None
+            if bsz is None or bs is None or bs.get("k") != "Int":
+                unknown.append("block size argument %s not understood" % render(roles.get("bs")))
+            elif str(bs.get("v")) != bsz.group(1):
+                problems.append("slot bs <- %s, expected the block size of %s" % (render(roles.get("bs")), vt[:60]))
+        if unknown and not problems:
+            ck.incomplete("E1.mirror-roles", "%s: %s" % (key, "; ".join(unknown)[:300]))
+            continue
         ck.ob("E1.mirror-roles", key, not problems, "; ".join(problems) or "kernel %s with buf <- %s.elements(), %s <- %s.elements(), idx/nidx of this mirror, boff, %s" % (
             want, bufp["n"], vslot, vecpar["n"], "alpha" if not is_gather else "no scaling"), fn.file, c.get("l"))
 
@@ -837,20 +1105,25 @@ def check_global_matrix(ck, facts):
         pr, px = fn.params[0], fn.params[1]
         locs = [c for c in calls_of(fn) if c.get("k") == "MCall" and this_field(c.get("obj")) is not None and callee_name(c).startswith("apply")]
         problems = []
+        unknown = []
         if len(locs) != 1:
-            problems.append("%d applications of the local matrix (expected exactly one)" % len(locs))
+            unknown.append("%d direct applications of the local matrix (expected exactly one); the product may be delegated to a construct that is not modelled" % len(locs))
         for c in locs:
             if callee_name(c) != want:
                 problems.append("calls local %s, method parity requires %s" % (callee_name(c), want))
             a = {pn: x for x, pn, pt in dfl.call_args_with_params(c, fn)}
-            if not param_local(a.get("r"), pr["d"], rs):
-                problems.append("result slot r <- %s, expected %s.local()" % (render(a.get("r")), pr["n"]))
-            if not param_local(a.get("x"), px["d"], rs):
-                problems.append("slot x <- %s, expected %s.local()" % (render(a.get("x")), px["n"]))
+            def slot(name, want_d, text):
+                v = a.get(name)
+                if param_local(v, want_d, rs):
+                    return
+                st_ = rs.path(v).steps if v is not None else ()
+                known = len(st_) == 2 and st_[0][0] == "param" and st_[1][0] == "call" and st_[1][1] == "local"
+                (problems if known else unknown).append("slot %s <- %s, expected %s" % (name, render(v), text))
+            slot("r", pr["d"], "%s.local()" % pr["n"])
+            slot("x", px["d"], "%s.local()" % px["n"])
             if len(fn.params) == 4:
                 py, pa = fn.params[2], fn.params[3]
-                if not param_local(a.get("y"), pr["d"], rs):
-                    problems.append("slot y <- %s, expected %s.local() (the type-0 copy of %s)" % (render(a.get("y")), pr["n"], py["n"]))
+                slot("y", pr["d"], "%s.local() (the type-0 copy of %s)" % (pr["n"], py["n"]))
                 al = a.get("alpha")
                 if not (al is not None and al.get("k") == "Ref" and al.get("d") == pa["d"]):
                     problems.append("slot alpha <- %s" % render(al))
@@ -858,11 +1131,23 @@ def check_global_matrix(ck, facts):
                 cps = [m for m in calls_of(fn) if m.get("k") == "MCall" and callee_name(m) == "copy" and (m.get("obj") or {}).get("d") == pr["d"]
                        and m.get("a") and m["a"][0].get("k") == "Ref" and m["a"][0].get("d") == py["d"]]
                 f10 = [m for m in calls_of(fn) if m.get("k") == "MCall" and callee_name(m) == "from_1_to_0" and (m.get("obj") or {}).get("d") == pr["d"]]
-                if len(cps) != 1 or len(f10) != 1:
-                    problems.append("expected exactly one %s.copy(%s) and one %s.from_1_to_0() (found %d, %d): the type-1 summand y must be converted to type-0 once before the local product is added" % (
-                        pr["n"], py["n"], pr["n"], len(cps), len(f10)))
+                before = [u for u in dfl.unmodelled_mutable_uses(fn, rs, dfl.Path((("param", pr["d"]),)), modelled=("copy", "from_1_to_0", "local", "sync_0", "sync_0_async"))
+                          if u is not c and not fn.cfg.stmt_dominates(c["i"], u["i"])]
+                if len(f10) > 1 or len(cps) > 1:
+                    problems.append("%d copies of y and %d type-1 -> type-0 conversions of r before the product: the summand is scaled by the frequencies more than once" % (len(cps), len(f10)))
+                elif len(cps) != 1 or len(f10) != 1:
+                    if before:
+                        unknown.append("r is prepared by %s, which is not modelled" % render(before[0])[:60])
+                    else:
+                        problems.append("expected exactly one %s.copy(%s) and one %s.from_1_to_0() (found %d, %d): the type-1 summand y must be converted to type-0 once before the local product is added" % (
+                            pr["n"], py["n"], pr["n"], len(cps), len(f10)))
                 elif not (fn.cfg.stmt_dominates(cps[0]["i"], f10[0]["i"]) and fn.cfg.stmt_dominates(f10[0]["i"], c["i"])):
-                    problems.append("order must be copy(y) -> from_1_to_0() -> local product")
+                    if fn.cfg.stmt_dominates(f10[0]["i"], cps[0]["i"]) and fn.cfg.stmt_dominates(cps[0]["i"], c["i"]):
+                        problems.append("from_1_to_0() is applied before copy(y): the converted values are overwritten by the type-1 summand")
+                    elif not fn.cfg.stmt_dominates(f10[0]["i"], c["i"]):
+                        problems.append("a path reaches the local product without r.from_1_to_0(): for the inputs that take it the type-1 summand is added unconverted (shared dofs counted once per sharing process)")
+                    else:
+                        unknown.append("copy(y) is conditional (control flow not modelled)")
             else:
                 extra = [m for m in calls_of(fn) if m.get("k") == "MCall" and callee_name(m) in ("from_1_to_0", "sync_1") and (m.get("obj") or {}).get("d") == pr["d"]]
                 if extra:
@@ -872,12 +1157,19 @@ def check_global_matrix(ck, facts):
             def is_sync(m, syncname=syncname):
                 return m.get("k") == "MCall" and callee_name(m) == syncname and (m.get("obj") or {}).get("k") == "Ref" and m["obj"].get("d") == pr["d"]
             if not dfl.after_on_all_paths(fn, c, is_sync):
-                problems.append("the type-0 result of the local product is not synchronised by %s.%s() on every path afterwards" % (pr["n"], syncname))
+                other = dfl.unmodelled_mutable_uses(fn, rs, dfl.Path((("param", pr["d"]),)), after=c, modelled=("local", "copy", "from_1_to_0"))
+                if other:
+                    unknown.append("no %s.%s() after the product, but r is handed to %s, which is not modelled" % (pr["n"], syncname, render(other[0])[:60]))
+                else:
+                    problems.append("the type-0 result of the local product is not synchronised by %s.%s() on every path afterwards" % (pr["n"], syncname))
             if is_async:
                 rets = [n for n in walk(fn.body) if n.get("k") == "Return"]
                 for r_ in rets:
                     if not any(is_sync(m) for m in walk(r_.get("e"))):
                         problems.append("a return does not hand out the ticket of %s.sync_0_async()" % pr["n"])
+        if unknown and not problems:
+            ck.incomplete("E7.matrix-apply-sync", "%s: %s" % (key, "; ".join(unknown)[:300]))
+            continue
         ck.ob("E7.matrix-apply-sync", key, not problems, "; ".join(problems) or "local %s on (r.local(), x.local()%s) followed by %s on every path" % (
             want, ", r.local(), alpha) after copy(y), from_1_to_0(" if len(fn.params) == 4 else "", "sync_0_async" if is_async else "sync_0"), fn.file, fn.line)
 
@@ -913,128 +1205,269 @@ def check_gate(ck, facts, partial=False):
                     ranks_f = this_field(c["obj"])
                 elif src and src[0]["d"] == push.params[1]["d"]:
                     mirrors_f = this_field(c["obj"])
-        inv = [c for c in calls_of(comp) if c.get("k") == "MCall" and callee_name(c) == "component_invert" and this_field(c.get("obj"))]
-        freqs_f = this_field(inv[0]["obj"]) if len(inv) == 1 else None
-        # ---- compile: freqs = 1 / (1 + sum over mirrors) -----------------------------------------------
-        rs = Resolver(comp)
-        par = dfl.parents(comp)
-        cfg = comp.cfg
-        problems = []
-        if ranks_f is None or mirrors_f is None:
-            ck.incomplete("E7.gate-freqs", ck_ + ": rank / mirror fields not recognised from push()")
-            continue
+        freqs_f = None
+        for g_ in fns.get("get_freqs", []):
+            rets_ = [n for n in walk(g_.body) if n.get("k") == "Return" and n.get("e") is not None]
+            if len(rets_) == 1 and this_field(rets_[0]["e"]):
+                freqs_f = this_field(rets_[0]["e"])
+        inv = [c for c in calls_of(comp) if c.get("k") == "MCall" and callee_name(c) == "component_invert" and this_field(c.get("obj")) and (freqs_f is None or this_field(c.get("obj")) == freqs_f)]
         if freqs_f is None:
-            problems.append((comp.line, "%d component_invert calls on a member (expected exactly one: the frequencies are the reciprocal of the multiplicities)" % len(inv)))
-        else:
-            iv = inv[0]
-            x = dfl.arg_by_param(iv, "x")
-            if this_field(x) != freqs_f:
-                problems.append((iv.get("l"), "component_invert(%s) does not invert %s itself" % (render(x), freqs_f)))
-            al = dfl.arg_by_param(iv, "alpha")
-            if al is not None and not is_lit_one(rs, al):
-                problems.append((iv.get("l"), "reciprocal taken with numerator %s" % render(al)))
-            if dfl.enclosing_loops(comp, par, iv):
-                problems.append((iv.get("l"), "the inversion is inside a loop"))
-            mp, bad = cfg.must_pass(lambda n: n.get("i") == iv["i"])
-            if not mp:
-                problems.append((iv.get("l"), "a path leaves compile() without inverting the multiplicities"))
-            fm = [c for c in calls_of(comp) if c.get("k") == "MCall" and callee_name(c) == "format" and this_field(c.get("obj")) == freqs_f]
-            if not (len(fm) == 1 and fm[0].get("a") and is_lit_one(rs, fm[0]["a"][0]) and not dfl.enclosing_loops(comp, par, fm[0])):
-                problems.append((comp.line, "%s is not initialised once to 1 (own contribution of this process) before the neighbour contributions are added" % freqs_f))
-            scs = [c for c in calls_of(comp) if c.get("k") == "MCall" and callee_name(c) == "scatter_axpy"]
-            if len(scs) != 1:
-                problems.append((comp.line, "%d scatter_axpy calls (expected one, in the loop over all mirrors)" % len(scs)))
-            for sc in scs:
-                loops = dfl.enclosing_loops(comp, par, sc)
-                tgt, buf, al = dfl.arg_by_param(sc, "vector"), dfl.arg_by_param(sc, "buffer"), dfl.arg_by_param(sc, "alpha")
-                if this_field(tgt) != freqs_f:
-                    problems.append((sc.get("l"), "mirror contributions are added to %s instead of %s" % (render(tgt), freqs_f)))
-                if al is not None and not is_lit_one(rs, al):
-                    problems.append((sc.get("l"), "mirror contribution scaled by %s" % render(al)))
-                if fm and not cfg.stmt_dominates(fm[0]["i"], sc["i"]):
-                    problems.append((sc.get("l"), "contributions are added before %s is formatted" % freqs_f))
-                if not cfg.stmt_dominates(sc["i"], iv["i"]) and loops:
-                    pass
-                if len(loops) != 1:
-                    problems.append((sc.get("l"), "scatter_axpy is not inside exactly one loop over the mirrors"))
+            freqs_f = this_field(inv[0]["obj"]) if len(inv) == 1 else None
+        def do_compile():
+            # ---- compile: freqs = 1 / (1 + sum over mirrors) -----------------------------------------------
+            rs = Resolver(comp)
+            par = dfl.parents(comp)
+            cfg = comp.cfg
+            problems = []
+            unknown = []
+            if ranks_f is None or mirrors_f is None:
+                ck.incomplete("E7.gate-freqs", ck_ + ": rank / mirror fields not recognised from push()")
+                return
+            def freqs_elsewhere(skip=()):
+                """calls that may produce / modify the frequency vector in a way this rule does not model"""
+                out_ = []
+                for c in calls_of(comp):
+                    if c in skip or c.get("callee") in dfl.MOVE_FNS:
+                        continue
+                    recv_ = dfl.receiver(c)
+                    if c.get("k") == "MCall" and (c.get("obj") is None or c["obj"].get("k") == "This") and not c.get("cconst"):
+                        out_.append(c)            # member helper
+                    elif recv_ is not None and this_field(recv_) == freqs_f and not c.get("cconst") and callee_name(c) not in ("format", "component_invert", "operator="):
+                        out_.append(c)
+                    elif any(a_ is not recv_ and pt_ is not None and is_nonconst_ref(pt_) and this_field(a_) == freqs_f for a_, pn_, pt_ in dfl.call_args_with_params(c, comp)) \
+                            and callee_name(c) != "scatter_axpy":
+                        out_.append(c)
+                return out_
+            if freqs_f is None:
+                ck.incomplete("E7.gate-freqs", ck_ + ": the frequency vector member is not recognised (get_freqs() / component_invert)")
+                return
+            if len(inv) != 1:
+                if freqs_elsewhere() or len(inv) > 1:
+                    ck.incomplete("E7.gate-freqs", "%s::compile: %d direct component_invert calls on %s; the inversion may be done by %s (not modelled)" % (
+                        ck_, len(inv), freqs_f, render((freqs_elsewhere() or inv)[0])[:60]))
                 else:
-                    L = loops[0]
-                    c = L.get("c")
-                    bnd = rs.value(c["rhs"]) if c is not None and c.get("k") == "Bin" and c.get("op") == "<" else None
-                    bound_ok = bnd is not None and bnd.get("k") == "MCall" and callee_name(bnd) == "size" and this_field(bnd.get("obj")) == mirrors_f
-                    ini = L.get("init")
-                    zero = ini is not None and ini.get("k") == "Decl" and len(ini["vars"]) == 1 and (unwrap_val(rs, ini["vars"][0].get("init")) or {}).get("v") in ("0", 0)
-                    if not (bound_ok and zero):
-                        problems.append((L.get("l"), "the loop does not range over all mirrors 0 .. %s.size()" % mirrors_f))
-                    mo = sc.get("obj")
-                    mst = rs.path(mo).steps if mo is not None else ()
-                    if not (len(mst) == 3 and mst[0] == ("this",) and mst[1] == ("field", mirrors_f) and mst[2][0] == "call" and mst[2][1] == "at"):
-                        problems.append((sc.get("l"), "contribution scattered by %s, not by a mirror of %s" % (render(mo), mirrors_f)))
-                    # buffer: created by the same mirror for the frequency vector and filled with ones
-                    if buf is None or buf.get("k") != "Ref" or buf.get("dk") != "local":
-                        problems.append((sc.get("l"), "buffer %s is not a local buffer" % render(buf)))
+                    ck.ob("E7.gate-freqs", ck_ + "::compile", False, "%s is never inverted (no component_invert, no helper that could do it): the frequencies stay the "
+                          "multiplicities instead of their reciprocals" % freqs_f, comp.file, comp.line)
+                return
+            if True:
+                iv = inv[0]
+                x = dfl.arg_by_param(iv, "x")
+                if this_field(x) != freqs_f:
+                    problems.append((iv.get("l"), "component_invert(%s) does not invert %s itself" % (render(x), freqs_f)))
+                al = dfl.arg_by_param(iv, "alpha")
+                if al is not None and not is_lit_one(rs, al):
+                    (problems if unwrap_val(rs, al).get("k") in ("Int", "Float") else unknown).append((iv.get("l"), "reciprocal taken with numerator %s" % render(al)))
+                if dfl.enclosing_loops(comp, par, iv):
+                    problems.append((iv.get("l"), "the inversion is inside a loop"))
+                mp, bad = cfg.must_pass(lambda n: n.get("i") == iv["i"])
+                if not mp:
+                    problems.append((iv.get("l"), "a path leaves compile() without inverting the multiplicities"))
+                fm = [c for c in calls_of(comp) if c.get("k") == "MCall" and callee_name(c) == "format" and this_field(c.get("obj")) == freqs_f]
+                if not (len(fm) == 1 and fm[0].get("a") and not dfl.enclosing_loops(comp, par, fm[0])):
+                    unknown.append((comp.line, "%s is not initialised by exactly one format(value) call outside loops" % freqs_f))
+                    fm = fm[:1]
+                elif not is_lit_one(rs, fm[0]["a"][0]):
+                    (problems if unwrap_val(rs, fm[0]["a"][0]).get("k") in ("Int", "Float") else unknown).append(
+                        (fm[0].get("l"), "%s is initialised to %s instead of 1 (own contribution of this process)" % (freqs_f, render(fm[0]["a"][0]))))
+                scs = [c for c in calls_of(comp) if c.get("k") == "MCall" and callee_name(c) == "scatter_axpy"]
+                if len(scs) == 0 and not freqs_elsewhere(skip=[iv] + fm):
+                    problems.append((comp.line, "no mirror contribution is added to %s: every shared dof keeps multiplicity 1" % freqs_f))
+                if len(scs) != 1 and not (len(scs) == 0 and problems):
+                    unknown.append((comp.line, "%d scatter_axpy calls (expected one, in the loop over all mirrors)" % len(scs)))
+                for sc in scs:
+                    loops = dfl.enclosing_loops(comp, par, sc)
+                    tgt, buf, al = dfl.arg_by_param(sc, "vector"), dfl.arg_by_param(sc, "buffer"), dfl.arg_by_param(sc, "alpha")
+                    if this_field(tgt) != freqs_f:
+                        problems.append((sc.get("l"), "mirror contributions are added to %s instead of %s" % (render(tgt), freqs_f)))
+                    if al is not None and not is_lit_one(rs, al):
+                        problems.append((sc.get("l"), "mirror contribution scaled by %s" % render(al)))
+                    if fm and not cfg.stmt_dominates(fm[0]["i"], sc["i"]):
+                        problems.append((sc.get("l"), "contributions are added before %s is formatted" % freqs_f))
+                    if not cfg.stmt_dominates(sc["i"], iv["i"]) and loops:
+                        pass
+                    if len(loops) != 1:
+                        unknown.append("scatter_axpy is not inside exactly one loop over the mirrors (loop structure not modelled)")
+                    elif loops[0].get("k") == "ForRange":
+                        L = loops[0]
+                        mo = sc.get("obj")
+                        lv = (L.get("var") or {}).get("d")
+                        if this_field(L.get("range")) != mirrors_f:
+                            unknown.append("range-for over %s instead of the mirror array %s" % (render(L.get("range")), mirrors_f))
+                        elif rs.path(mo).steps != (("local", lv),):
+                            problems.append((sc.get("l"), "contribution scattered by %s, not by the mirror of the iteration" % render(mo)))
+                        if buf is None or buf.get("k") != "Ref" or buf.get("dk") != "local":
+                            unknown.append("buffer %s is not a local buffer" % render(buf))
+                        else:
+                            v = rs.var(buf["d"])
+                            ini = v.get("init") if v else None
+                            if not (ini is not None and ini.get("k") == "MCall" and callee_name(ini) == "create_buffer"):
+                                unknown.append("creation of the buffer %s not understood" % render(buf))
+                            elif rs.path(ini.get("obj")) != rs.path(mo):
+                                problems.append((sc.get("l"), "buffer %s is not created by the mirror that scatters it" % render(buf)))
+                            wr = [m for m in calls_of(comp) if m.get("k") == "MCall" and (m.get("obj") or {}).get("d") == buf["d"] and not m.get("cconst") and cfg.stmt_dominates(m["i"], sc["i"])]
+                            if not wr:
+                                unknown.append("buffer %s is not filled by a member call before it is scattered" % render(buf))
+                            elif not (callee_name(wr[-1]) == "format" and wr[-1].get("a")):
+                                unknown.append("buffer %s is filled by %s, which is not modelled" % (render(buf), render(wr[-1])[:40]))
+                            elif not is_lit_one(rs, wr[-1]["a"][0]):
+                                problems.append((sc.get("l"), "buffer %s is formatted to %s instead of ones before it is scattered" % (render(buf), render(wr[-1]["a"][0]))))
                     else:
-                        v = rs.var(buf["d"])
-                        ini = v.get("init") if v else None
-                        if not (ini is not None and ini.get("k") == "MCall" and callee_name(ini) in ("create_buffer",) and mo is not None and rs.path(ini.get("obj")) == rs.path(mo)):
-                            problems.append((sc.get("l"), "buffer %s is not created by the mirror that scatters it" % render(buf)))
-                        wr = [m for m in calls_of(comp) if m.get("k") == "MCall" and (m.get("obj") or {}).get("d") == buf["d"] and not m.get("cconst") and cfg.stmt_dominates(m["i"], sc["i"])]
-                        if not (wr and callee_name(wr[-1]) == "format" and wr[-1].get("a") and is_lit_one(rs, wr[-1]["a"][0])):
-                            problems.append((sc.get("l"), "buffer %s is not filled with ones before it is scattered" % render(buf)))
-                if not (len(loops) == 1 and cfg.stmt_dominates(fm[0]["i"] if fm else sc["i"], sc["i"])):
+                        L = loops[0]
+                        c = L.get("c")
+                        bnd = rs.value(c["rhs"]) if c is not None and c.get("k") == "Bin" and c.get("op") == "<" else None
+                        bound_ok = bnd is not None and bnd.get("k") == "MCall" and callee_name(bnd) == "size" and this_field(bnd.get("obj")) == mirrors_f
+                        ini = L.get("init")
+                        zero = ini is not None and ini.get("k") == "Decl" and len(ini["vars"]) == 1 and (unwrap_val(rs, ini["vars"][0].get("init")) or {}).get("v") in ("0", 0)
+                        if not (bound_ok and zero):
+                            problems.append((L.get("l"), "the loop does not range over all mirrors 0 .. %s.size()" % mirrors_f))
+                        mo = sc.get("obj")
+                        mst = rs.path(mo).steps if mo is not None else ()
+                        if not (len(mst) == 3 and mst[0] == ("this",) and mst[1] == ("field", mirrors_f) and mst[2][0] == "call" and mst[2][1] == "at"):
+                            problems.append((sc.get("l"), "contribution scattered by %s, not by a mirror of %s" % (render(mo), mirrors_f)))
+                        # buffer: created by the same mirror for the frequency vector and filled with ones
+                        if buf is None or buf.get("k") != "Ref" or buf.get("dk") != "local":
+                            problems.append((sc.get("l"), "buffer %s is not a local buffer" % render(buf)))
+                        else:
+                            v = rs.var(buf["d"])
+                            ini = v.get("init") if v else None
+                            if not (ini is not None and ini.get("k") == "MCall" and callee_name(ini) in ("create_buffer",) and mo is not None and rs.path(ini.get("obj")) == rs.path(mo)):
+                                problems.append((sc.get("l"), "buffer %s is not created by the mirror that scatters it" % render(buf)))
+                            wr = [m for m in calls_of(comp) if m.get("k") == "MCall" and (m.get("obj") or {}).get("d") == buf["d"] and not m.get("cconst") and cfg.stmt_dominates(m["i"], sc["i"])]
+                            if not (wr and callee_name(wr[-1]) == "format" and wr[-1].get("a") and is_lit_one(rs, wr[-1]["a"][0])):
+                                problems.append((sc.get("l"), "buffer %s is not filled with ones before it is scattered" % render(buf)))
+                    if not (len(loops) == 1 and cfg.stmt_dominates(fm[0]["i"] if fm else sc["i"], sc["i"])):
+                        pass
+                # nothing touches the frequencies after the inversion
+                for c in calls_of(comp):
+                    if c.get("k") == "MCall" and this_field(c.get("obj")) == freqs_f and not c.get("cconst") and c is not iv and cfg.stmt_dominates(iv["i"], c["i"]):
+                        (problems if callee_name(c) in ("format", "scale", "component_invert", "component_product", "axpy", "copy", "clear") else unknown).append(
+                            (c.get("l"), "%s modified after the inversion by %s" % (freqs_f, callee_name(c))))
+                if scs and dfl.enclosing_loops(comp, par, scs[0]):
+                    # inversion after the loop: the loop header dominates it and it is not in the loop (checked above)
                     pass
-            # nothing touches the frequencies after the inversion
-            for c in calls_of(comp):
-                if c.get("k") == "MCall" and this_field(c.get("obj")) == freqs_f and not c.get("cconst") and c is not iv and cfg.stmt_dominates(iv["i"], c["i"]):
-                    problems.append((c.get("l"), "%s modified after the inversion by %s" % (freqs_f, callee_name(c))))
-            if scs and dfl.enclosing_loops(comp, par, scs[0]):
-                # inversion after the loop: the loop header dominates it and it is not in the loop (checked above)
-                pass
-        ck.ob("E7.gate-freqs", ck_ + "::compile", not problems, "; ".join("line %s: %s" % p for p in problems) or
-              "%s := 1; += 1 from every mirror of %s; component_invert once, last" % (freqs_f, mirrors_f), comp.file, problems[0][0] if problems else comp.line)
+            unknown = [u if isinstance(u, tuple) else (comp.line, u) for u in unknown]
+            if unknown and not problems:
+                ck.incomplete("E7.gate-freqs", "%s::compile: %s" % (ck_, "; ".join(sorted({"line %s: %s" % u for u in unknown}))[:400]))
+                return
+            ck.ob("E7.gate-freqs", ck_ + "::compile", not problems, "; ".join("line %s: %s" % p for p in problems) or
+                  "%s := 1; += 1 from every mirror of %s; component_invert once, last" % (freqs_f, mirrors_f), comp.file, problems[0][0] if problems else comp.line)
+
+        do_compile()
         if freqs_f is None:
             continue
         # ---- dot -----------------------------------------------------------------------------------
         d = one("dot")
-        if d is not None:
+        if d is not None and d.cfg is not None:
             rs = Resolver(d)
-            par = dfl.parents(d)
+            cfg = d.cfg
             px, py = d.params[0]["d"], d.params[1]["d"]
-            problems = []
-            unknown = []
-            weighted = 0
 
             def is_xy(a, b):
-                return {a.get("d"), b.get("d")} == {px, py} and a.get("k") == "Ref" and b.get("k") == "Ref"
-            for r_ in [n for n in walk(d.body) if n.get("k") == "Return"]:
-                e = r_.get("e")
-                conds = enclosing_conds(par, r_)
-                inner = e
-                summed = False
+                return a.get("k") == "Ref" and b.get("k") == "Ref" and {a.get("d"), b.get("d")} == {px, py}
+
+            def classify(e):
+                """'weighted' | 'summed' (global sum of the unweighted local dot) | 'local' (unweighted, no sum) | None"""
                 e = rs.value(e) if e is not None else e
-                inner = e
-                if e is not None and e.get("k") == "MCall" and callee_name(e) == "sum" and len(e.get("a", [])) == 1:
+                inner, summed = e, False
+                if e is not None and e.get("k") == "MCall" and callee_name(e) == "sum" and len(e.get("a", [])) == 1 and (e.get("obj") is None or e["obj"].get("k") == "This"):
                     inner, summed = rs.value(e["a"][0]), True
                 if inner is not None and inner.get("k") == "MCall" and callee_name(inner) == "triple_dot" and this_field(inner.get("obj")) == freqs_f \
-                        and len(inner.get("a", [])) == 2 and is_xy(*inner["a"]) and summed:
-                    weighted += 1
-                    continue
+                        and len(inner.get("a", [])) == 2 and is_xy(*inner["a"]):
+                    return "weighted" if summed else None
                 if inner is not None and inner.get("k") == "MCall" and callee_name(inner) == "dot" and len(inner.get("a", [])) == 1 and is_xy(inner.get("obj") or {}, inner["a"][0]):
-                    no_nb = any(br == "then" and any(this_field(x) == ranks_f for x in walk(c)) and any(is_call(x) and callee_name(x) == "empty" for x in walk(c))
-                                and not (c.get("k") == "Un" and c.get("op") == "!") for c, br in conds)
-                    single = any(br == "then" and any(is_call(x) and callee_name(x) == "size" for x in walk(c)) and any(x.get("k") == "Member" and "comm" in x.get("n", "") for x in walk(c)) for c, br in conds)
-                    if single or (no_nb and summed):
-                        continue
-                    problems.append((r_.get("l"), "returns the unweighted %s on a path where the process may have neighbours: shared dofs are counted once per sharing process" % render(e)[:60]))
-                    continue
-                unknown.append("return value %s is neither sum(%s.triple_dot(x, y)) nor a guarded unweighted dot" % (render(e)[:70], freqs_f))
-            if unknown:
-                ck.incomplete("E7.gate-dot", "%s::dot: %s" % (ck_, "; ".join(unknown)))
-            if weighted != 1 and not unknown:
-                problems.append((d.line, "%d returns of sum(%s.triple_dot(x, y)) (expected exactly one, the neighbour case)" % (weighted, freqs_f)))
-            if not unknown or problems:
+                    return "summed" if summed else "local"
+                return None
+
+            def atom(c):
+                """(name, truth-of-condition-means) for E = no neighbours, N = no communicator, S = single process"""
+                pol = True
+                c = rs.value(c)
+                while c is not None and c.get("k") == "Un" and c.get("op") == "!":
+                    c, pol = rs.value(c["e"]), not pol
+                if c is None:
+                    return None
+                if c.get("k") == "MCall" and callee_name(c) == "empty" and this_field(c.get("obj")) == ranks_f:
+                    return ("E", pol)
+                is_comm = lambda x: x is not None and x.get("k") == "Member" and x.get("field") and "Comm" in d.ntype(x)
+                if is_comm(c):
+                    return ("N", not pol)
+                if c.get("k") == "Bin" and c.get("op") in ("==", "!="):
+                    l, r = rs.value(c["lhs"]), rs.value(c["rhs"])
+                    for u, v in ((l, r), (r, l)):
+                        if is_comm(u) and v.get("k") == "Null":
+                            return ("N", pol if c["op"] == "==" else not pol)
+                if c.get("k") == "Bin" and c.get("op") in ("==", "!=", "<=", "<", ">", ">="):
+                    l, r = unwrap_val(rs, c["lhs"]), unwrap_val(rs, c["rhs"])
+                    op = c["op"]
+                    if r is not None and r.get("k") == "MCall" and l is not None and l.get("k") == "Int":
+                        l, r, op = r, l, {"<": ">", ">": "<", "<=": ">=", ">=": "<="}.get(op, op)
+                    if l is not None and l.get("k") == "MCall" and callee_name(l) == "size" and is_comm(l.get("obj")) and r is not None and r.get("k") == "Int":
+                        k_ = int(r["v"])
+                        single = {("==", 1): True, ("!=", 1): False, ("<=", 1): True, ("<", 2): True, (">", 1): False, (">=", 2): False}.get((op, k_))
+                        if single is not None:
+                            return ("S", single if pol else not single)
+                return None
+            problems, unknown = [], []
+            weighted = 0
+            seen_ret = set()
+
+            def dfs(b, cons, unk, depth=0):
+                nonlocal weighted
+                if depth > 40:
+                    unknown.append("control flow too deep")
+                    return
+                blk = cfg.blocks[b]
+                for e in blk["el"]:
+                    n = fn_by_id(e)
+                    if n is not None and n.get("k") == "Return":
+                        kind = classify(n.get("e"))
+                        forced = lambda a_: cons.get(a_) is True
+                        if kind is None:
+                            unknown.append("return value %s not understood" % render(n.get("e"))[:70])
+                        elif kind == "weighted":
+                            if n["i"] not in seen_ret:
+                                weighted += 1
+                        else:
+                            ok_ = forced("N") or forced("S") or (kind == "summed" and forced("E"))
+                            if not ok_:
+                                msg = "returns the %s %s on a path where the process may have %s%s" % (
+                                    "unweighted" if kind == "summed" else "purely local", render(n.get("e"))[:50],
+                                    "neighbours: shared dofs are counted once per sharing process" if kind == "summed" or not forced("E") else "other processes: no global sum",
+                                    " (path conditions: %s)" % ", ".join("%s=%s" % kv for kv in sorted(cons.items())) if cons else "")
+                                (unknown if unk else problems).append(msg if unk else (n.get("l"), msg))
+                        seen_ret.add(n["i"])
+                        return
+                succ = blk.get("succ", [])
+                if blk.get("cond") is not None and len(succ) == 2:
+                    cnd = fn_by_id(blk["cond"])
+                    while cnd is not None and cnd.get("k") == "Bin" and cnd.get("op") in ("&&", "||"):
+                        cnd = cnd["rhs"]        # short-circuit operators are split by the CFG: this block tests the last operand
+                    at = atom(cnd)
+                    for k_, sb in enumerate(succ):
+                        if sb is None:
+                            continue
+                        if at is None:
+                            dfs(sb, cons, True, depth + 1)
+                        else:
+                            val = at[1] if k_ == 0 else (not at[1])
+                            if cons.get(at[0], val) != val:
+                                continue
+                            dfs(sb, dict(cons, **{at[0]: val}), unk, depth + 1)
+                else:
+                    for sb in succ:
+                        if sb is not None:
+                            dfs(sb, cons, unk, depth + 1)
+            fn_by_id = d.by_id
+            dfs(cfg.entry, {}, False)
+            problems = list({p_[1]: p_ for p_ in problems}.values())
+            if unknown and not problems:
+                ck.incomplete("E7.gate-dot", "%s::dot: %s" % (ck_, "; ".join(sorted(set(map(str, unknown))))[:400]))
+            else:
+                if weighted < 1 and not problems:
+                    problems.append((d.line, "no return of sum(%s.triple_dot(x, y)) for the neighbour case" % freqs_f))
                 ck.ob("E7.gate-dot", ck_ + "::dot", not problems, "; ".join("line %s: %s" % p for p in problems) or
-                      "neighbour case returns sum(%s.triple_dot(x, y)); unweighted dot only for a single process / no neighbours" % freqs_f, d.file, problems[0][0] if problems else d.line)
+                      "every path that admits neighbours returns sum(%s.triple_dot(x, y)); the unweighted dot only where the path conditions force a single process / no neighbours" % freqs_f,
+                      d.file, problems[0][0] if problems else d.line)
         da = one("dot_async")
         if da is not None:
             rets = [n for n in walk(da.body) if n.get("k") == "Return"]
@@ -1064,6 +1497,9 @@ def check_gate(ck, facts, partial=False):
                 a = {pn: x for x, pn, pt in dfl.call_args_with_params(cons[0], f)}
                 opn = a.get("op")
                 opname = (opn.get("qn") or opn.get("n") or "") if opn is not None and opn.get("k") == "Ref" else ""
+                if not re.search(r"op_\w+$", opname):
+                    ck.incomplete("E4.gate-reduction-op", "%s::%s: reduction operation %s not understood" % (ck_, name, render(opn)))
+                    continue
                 if not opname.endswith(op):
                     ok = False
                     detail += "reduction operation %s, expected Dist::%s; " % (render(opn), op)
@@ -1084,7 +1520,8 @@ def check_gate(ck, facts, partial=False):
                     ok = False
                     detail += "summand %s, expected x; " % render(xv)
             else:
-                detail = "%d SynchScalarTicket constructions" % len(cons)
+                ck.incomplete("E4.gate-reduction-op", "%s::%s: %d direct SynchScalarTicket constructions in the return value (delegation not modelled)" % (ck_, name, len(cons)))
+                continue
             ck.ob("E4.gate-reduction-op", "%s::%s" % (ck_, name), ok, detail or "SynchScalarTicket(%s, comm, Dist::%s, sqrt=%s)" % ("x*x" if name == "norm2_async" else "x", op, "param" if sq is None else sq), f.file, f.line)
         # ---- from_1_to_0 and the sync functions --------------------------------------------------------
         f10 = one("from_1_to_0")
@@ -1095,8 +1532,11 @@ def check_gate(ck, facts, partial=False):
                 c = cps[0]
                 vd = f10.params[0]["d"]
                 ok = (c.get("obj") or {}).get("d") == vd and len(c["a"]) == 2 and sorted([("p" if x.get("d") == vd else this_field(x)) for x in c["a"]], key=str) == sorted(["p", freqs_f], key=str)
-            ck.ob("E7.gate-discipline", ck_ + "::from_1_to_0", ok, "vector <- vector (*) %s, once" % freqs_f if ok else
-                  "from_1_to_0 must be exactly vector.component_product(vector, %s)" % freqs_f, f10.file, f10.line)
+            if not ok and (len(cps) != 1 or len(cps[0].get("a", [])) != 2):
+                ck.incomplete("E7.gate-discipline", "%s::from_1_to_0: %d component_product calls (the scaling is done by a construct that is not modelled)" % (ck_, len(cps)))
+            else:
+                ck.ob("E7.gate-discipline", ck_ + "::from_1_to_0", ok, "vector <- vector (*) %s, once" % freqs_f if ok else
+                      "from_1_to_0 must be exactly vector.component_product(vector, %s), found %s" % (freqs_f, render(cps[0])[:70]), f10.file, f10.line)
         for name in ("sync_0", "sync_1", "sync_0_async", "sync_1_async"):
             f = one(name)
             if f is None:
@@ -1107,15 +1547,28 @@ def check_gate(ck, facts, partial=False):
             cons = [c for c in calls_of(f) if c.get("k") in ("Construct", "TempObj") and strip_targs(c.get("ccls", "")) == "FEAT::Global::SynchVectorTicket" and len(c.get("a", [])) == 4]
             problems = []
             if len(cons) != 1:
-                problems.append("%d constructions of a posting SynchVectorTicket (expected exactly one)" % len(cons))
+                deleg = [c for c in calls_of(f) if c.get("k") == "MCall" and callee_name(c) == "wait" and (c.get("obj") or {}).get("k") == "MCall"
+                         and callee_name(c["obj"]) == name + "_async" and c["obj"].get("a") and c["obj"]["a"][0].get("d") == vd]
+                if len(cons) == 0 and len(deleg) == 1 and not name.endswith("_async"):
+                    ck.ob("E7.gate-discipline", "%s::%s" % (ck_, name), True, "delegates to %s_async(vector).wait() (checked separately)" % name, f.file, f.line)
+                else:
+                    ck.incomplete("E7.gate-discipline", "%s::%s: %d direct constructions of a posting SynchVectorTicket (delegation / helper not modelled)" % (ck_, name, len(cons)))
+                continue
             for c in cons:
                 a = {pn: x for x, pn, pt in dfl.call_args_with_params(c, f)}
-                if not (a.get("target") is not None and a["target"].get("k") == "Ref" and a["target"].get("d") == vd):
-                    problems.append("ticket target %s is not the vector parameter" % render(a.get("target")))
-                if this_field(a.get("ranks")) != ranks_f:
-                    problems.append("ticket ranks %s, expected %s" % (render(a.get("ranks")), ranks_f))
-                if this_field(a.get("mirrors")) != mirrors_f:
-                    problems.append("ticket mirrors %s, expected %s" % (render(a.get("mirrors")), mirrors_f))
+                unk_ = []
+                tp = rs.path(a.get("target")).steps if a.get("target") is not None else ()
+                if tp != (("param", vd),):
+                    (problems if (tp and tp[0][0] in ("param", "this")) else unk_).append("ticket target %s is not the vector parameter" % render(a.get("target")))
+                for slot_, want_ in (("ranks", ranks_f), ("mirrors", mirrors_f)):
+                    sp_ = rs.path(a.get(slot_)).steps if a.get(slot_) is not None else ()
+                    got_ = sp_[1][1] if len(sp_) == 2 and sp_[0] == ("this",) and sp_[1][0] == "field" else None
+                    if got_ != want_:
+                        (problems if got_ is not None else unk_).append("ticket %s %s, expected %s" % (slot_, render(a.get(slot_)), want_))
+                if unk_ and not problems:
+                    ck.incomplete("E7.gate-discipline", "%s::%s: %s (not understood)" % (ck_, name, "; ".join(unk_)))
+                    problems = None
+                    break
                 conv = [m for m in calls_of(f) if m.get("k") == "MCall" and callee_name(m) == "from_1_to_0"]
                 if "sync_1" in name:
                     if not (len(conv) == 1 and conv[0].get("a") and conv[0]["a"][0].get("d") == vd and cfg.stmt_dominates(conv[0]["i"], c["i"])):
@@ -1126,10 +1579,21 @@ def check_gate(ck, facts, partial=False):
                     pr = dfl.parents(f).get(id(c))
                     var = pr[0] if pr and pr[0].get("k") == "Var" else None
                     if var is None:
-                        problems.append("the ticket is not a named local that is waited for")
+                        pw = pr[0] if pr else None
+                        if not (pw is not None and pw.get("k") == "MCall" and callee_name(pw) == "wait"):
+                            ck.incomplete("E7.gate-discipline", "%s::%s: the ticket is neither a named local nor waited for directly (%s)" % (ck_, name, render(pw)[:50] if pw else "?"))
+                            problems = None
+                            break
                     else:
                         if not dfl.after_on_all_paths(f, c, lambda m, var=var: m.get("k") == "MCall" and callee_name(m) == "wait" and (m.get("obj") or {}).get("d") == var["d"]):
+                            elsewhere = dfl.unmodelled_mutable_uses(f, rs, dfl.Path((("local", var["d"]),)), modelled=("wait",))
+                            if elsewhere:
+                                ck.incomplete("E7.gate-discipline", "%s::%s: the ticket is handed to %s, which is not modelled and may wait for it" % (ck_, name, render(elsewhere[0])[:50]))
+                                problems = None
+                                break
                             problems.append("ticket.wait() is not called on every path after the exchange was started")
+            if problems is None:
+                continue
             ck.ob("E7.gate-discipline", "%s::%s" % (ck_, name), not problems, "; ".join(problems) or
                   "%sSynchVectorTicket(vector, comm, %s, %s)%s" % ("from_1_to_0(vector); " if "sync_1" in name else "", ranks_f, mirrors_f, "" if name.endswith("_async") else "; wait()"), f.file, f.line)
 
@@ -1149,6 +1613,12 @@ def check_reductions(ck, facts, partial=False):
             if ok and fn.name == "sum" and len(e["obj"]["a"]) > 1:
                 sq = e["obj"]["a"][1]
                 ok = sq.get("k") == "Bool" and not sq.get("v")
+            if not ok:
+                asyncs = [c for c in calls_of(fn) if c.get("k") == "MCall" and callee_name(c).endswith("_async")]
+                wrong = [c for c in asyncs if callee_name(c) != fn.name + "_async"]
+                if not wrong:
+                    ck.incomplete("E4.gate-reduction-op", "%s::%s: return value %s is not of the modelled form %s_async(x).wait()" % (ckey(fn.cls), fn.name, render(e)[:60] if e is not None else "?", fn.name))
+                    continue
             ck.ob("E4.gate-reduction-op", "%s::%s" % (ckey(fn.cls), fn.name), ok, "returns %s" % render(e) if e is not None else "no single return", fn.file, fn.line)
         m = re.match(r"(max|min)(_abs)?_element(_async)?$", fn.name or "")
         if cls == "FEAT::Global::Vector" and m:
@@ -1156,14 +1626,26 @@ def check_reductions(ck, facts, partial=False):
             want_local = "%s%s_element" % (m.group(1), m.group(2) or "")
             gcalls = [c for c in calls_of(fn) if c.get("k") == "MCall" and strip_targs(c.get("ccls", "")) == "FEAT::Global::Gate"]
             problems = []
+            rsr = Resolver(fn)
+            gcalls = [c for c in gcalls if callee_name(c) not in ("get_comm",)]
             if len(gcalls) != 1:
-                problems.append("%d gate calls (expected one)" % len(gcalls))
+                ck.incomplete("E4.gate-reduction-op", "%s::%s: %d gate calls (expected one; delegation not modelled)" % (ckey(fn.cls), fn.name, len(gcalls)))
+                continue
+            unk = False
             for c in gcalls:
                 if callee_name(c) != want_gate:
-                    problems.append("reduces with Gate::%s, expected Gate::%s" % (callee_name(c), want_gate))
-                a = c["a"][0] if c.get("a") else None
-                if not (a is not None and a.get("k") == "MCall" and callee_name(a) == want_local and this_field(a.get("obj")) is not None):
+                    if re.match(r"(max|min|sum|norm2)(_async)?$", callee_name(c)):
+                        problems.append("reduces with Gate::%s, expected Gate::%s" % (callee_name(c), want_gate))
+                    else:
+                        unk = True
+                a = rsr.value(c["a"][0]) if c.get("a") else None
+                if not (a is not None and a.get("k") == "MCall" and this_field(a.get("obj")) is not None):
+                    unk = True
+                elif callee_name(a) != want_local:
                     problems.append("reduces %s, expected the local %s() of the own vector" % (render(a), want_local))
+            if unk and not problems:
+                ck.incomplete("E4.gate-reduction-op", "%s::%s: reduced quantity / gate operation of %s not understood" % (ckey(fn.cls), fn.name, render(gcalls[0])[:60]))
+                continue
             # the gate-less fallback returns the same local quantity
             for r_ in [n for n in walk(fn.body) if n.get("k") == "Return"]:
                 e = r_.get("e")
@@ -1186,24 +1668,35 @@ def check_global_vector(ck, facts):
             continue
         gname, argspec = VEC_DELEGATE[fn.name]
         key = "%s::%s" % (ckey(fn.cls), fn.name)
-        gcalls = [c for c in calls_of(fn) if c.get("k") == "MCall" and strip_targs(c.get("ccls", "")) == "FEAT::Global::Gate"]
-        problems = []
+        rsv = Resolver(fn)
+        gcalls = [c for c in calls_of(fn) if c.get("k") == "MCall" and strip_targs(c.get("ccls", "")) == "FEAT::Global::Gate" and callee_name(c) not in ("get_comm",)]
+        problems, unknown = [], []
         if len(gcalls) != 1:
-            problems.append("%d gate calls (expected one)" % len(gcalls))
+            unknown.append("%d gate calls (expected one)" % len(gcalls))
         for c in gcalls:
             if callee_name(c) != gname:
                 problems.append("delegates to Gate::%s, expected Gate::%s" % (callee_name(c), gname))
             args = c.get("a", [])
             if len(args) < len(argspec):
-                problems.append("too few arguments")
+                unknown.append("argument list of %s not understood" % render(c)[:60])
                 continue
             for a, sp in zip(args, argspec):
-                if sp == "v" and this_field(a) is None:
-                    problems.append("argument %s is not the own local vector" % render(a))
-                elif sp == "x" and not (fn.params and param_local(a, fn.params[0]["d"])):
-                    problems.append("argument %s is not x.local()" % render(a))
-                elif sp is True and not (a.get("k") == "Bool" and a.get("v")):
-                    problems.append("sqrt flag %s, expected true" % render(a))
+                st_ = rsv.path(a).steps
+                own = len(st_) == 2 and st_[0] == ("this",) and st_[1][0] == "field"
+                xloc = bool(fn.params) and param_local(a, fn.params[0]["d"], rsv)
+                if sp == "v" and not own:
+                    (problems if xloc else unknown).append("argument %s is not the own local vector" % render(a))
+                elif sp == "x" and not xloc:
+                    (problems if own else unknown).append("argument %s is not x.local()" % render(a))
+                elif sp is True:
+                    v_ = strip_casts(rsv, a)
+                    if v_.get("k") != "Bool":
+                        unknown.append("sqrt flag %s not understood" % render(a))
+                    elif not v_.get("v"):
+                        problems.append("sqrt flag %s, expected true" % render(a))
+        if unknown and not problems:
+            ck.incomplete("E4.vector-delegate", "%s: %s" % (key, "; ".join(unknown)[:300]))
+            continue
         ck.ob("E4.vector-delegate", key, not problems, "; ".join(problems) or "-> Gate::%s(%s)" % (gname, ", ".join(map(str, argspec))), fn.file, fn.line)
     for fn in facts.functions:
         if fn.tk == "pattern" or strip_targs(fn.cls) != "FEAT::Global::Vector" or fn.name not in ("norm2sqr", "norm2"):
@@ -1214,6 +1707,9 @@ def check_global_vector(ck, facts):
             ok = e is not None and e.get("k") == "MCall" and callee_name(e) == "dot" and (e.get("obj") is None or e["obj"].get("k") == "This") and len(e["a"]) == 1 and render(e["a"][0]) in ("(*this)", "*this")
         else:
             ok = e is not None and e.get("k") == "Call" and e.get("callee") == "FEAT::Math::sqrt" and len(e["a"]) == 1 and e["a"][0].get("k") == "MCall" and callee_name(e["a"][0]) == "norm2sqr"
+        if not ok:
+            ck.incomplete("E4.vector-delegate", "%s::%s: return value %s is not the modelled composition (norm2sqr = dot(*this), norm2 = sqrt(norm2sqr()))" % (ckey(fn.cls), fn.name, render(e)[:60]))
+            continue
         ck.ob("E4.vector-delegate", "%s::%s" % (ckey(fn.cls), fn.name), ok, "returns %s" % render(e), fn.file, fn.line)
 
 
@@ -1261,7 +1757,12 @@ def check_muxer(ck, facts):
                 if x.get("k") == "Ref" and x.get("d") == iv and this_field(y) == B and B is not None:
                     ok_off = True
         if not ok_off:
-            problems.append((mo.get("l"), "buffer offset %s of child i is not i * %s (the slice length of the collective)" % (render(off), B)))
+            understood = off is not None and all(x.get("k") in ("Bin", "Ref", "Int", "Member", "This", "Cast") or (x.get("k") == "MCall" and x.get("cconst")) for x in walk(off))
+            if understood and B is not None:
+                problems.append((mo.get("l"), "buffer offset %s of child i is not i * %s (the slice length of the collective)" % (render(off), B)))
+            else:
+                ck.incomplete("E14.muxer-slices", "%s: buffer offset %s of the per-child mirror operation not understood" % (key, render(off)))
+                continue
         # loop range = all children
         c = L.get("c")
         bnd = unwrap_val(rs, c["rhs"]) if c is not None and c.get("k") == "Bin" and c.get("op") == "<" else None
